@@ -51,6 +51,9 @@ CLAIMED = {
  "C14": dict(technique="static analysis: dominance rules that pruning predicates default to 'may intersect', unit-pair and field-coverage rules for the persisted occupancy map, sibling rule that search and fetch use one predicate and one index function, every-id rule for building the map, provenance of the fetch window from the sorted id list",
              text="Soundness of pruning rests on a few structural facts that are decided on all paths: unknown means intersects, persisted units agree, the map is complete and built before it is persisted, search and fetch ask the same question, the fetch window spans all requested ids. Bitmask arithmetic and border binary searches are value-level and not decided.",
              note="Trusted: go/ssa; time-unit functions classified by name.", ref="§3 C14"),
+ "C05": dict(technique="static analysis: dominance order (sort before chunking, merge before pagination), pairing of the sort key with the early-termination key per DocsOrder constant through the one-line order predicates, non-strictness rule for the border comparison, provenance of limits and merge arguments, error-flow of fraction errors",
+             text="Layout independence rests on the fraction order, the key used to declare ids final, and the merge pipeline; these are compared structurally for both orders. The arithmetic of early termination beyond the key/strictness, paging continuity and cross-replica de-duplication are metamorphic, value-level claims and are not decided.",
+             note="Trusted: go/ssa; IsDesc/IsReverse are evaluated from their one-line bodies over the declared DocsOrder constants.", ref="§3 C05"),
 }
 
 NOT_YET = "check not built yet in this round (planned in DESIGN.md §3); nothing is claimed for it"
